@@ -151,7 +151,7 @@ class SigOptParzenEstimator(ScipyOptimizable):
       covariance=self.lower_covariance,
       grad=grad,
     )
-    return density + SPE_MINIMUM_LOWER_DENSITY_VALUE
+    return density if grad else density + SPE_MINIMUM_LOWER_DENSITY_VALUE
 
   def evaluate_greater_density(self, points_to_sample, grad=False):
     density = self._evaluate_base(
